@@ -368,3 +368,47 @@ Proof.
   unfold commitment_fee, fee_denom_total. fold asfee. unfold twenty_k in *.
   apply chk_some. nia.
 Qed.
+
+(** ** The message-fee distribution: parts always add up to the whole. *)
+Lemma recips_sum_add l r a : recips_sum (recip_add l r a) = recips_sum l + a.
+Proof.
+  induction l as [|[r' v] t IH]; cbn [recip_add recips_sum fold_right snd]; [lia|].
+  destruct (N.eqb r r'); cbn [recips_sum fold_right snd]; [lia|].
+  fold (recips_sum (recip_add t r a)). fold (recips_sum t). rewrite IH. lia.
+Qed.
+
+Definition dist_ok (d : dist) : Prop :=
+  d_total d = d_module d + recips_sum (d_recips d) /\ 0 <= d_module d /\
+  Forall (fun p => 0 <= snd p) (d_recips d).
+
+Lemma recip_add_nonneg l r a : 0 <= a -> Forall (fun p => 0 <= snd p) l ->
+  Forall (fun p : N * Z => 0 <= snd p) (recip_add l r a).
+Proof.
+  intros Ha. induction 1 as [|[r' v] t Hv Ht IH]; cbn [recip_add].
+  - constructor; [cbn; lia|constructor].
+  - destruct (N.eqb r r'); constructor; cbn in *; try lia; assumption.
+Qed.
+
+Lemma dist_increase_ok d amt bips r :
+  dist_ok d -> 0 <= bips <= 10000 -> snd (dist_increase d amt bips r) = true /\ dist_ok (fst (dist_increase d amt bips r)).
+Proof.
+  intros (Ht & Hm & Hr) Hb. unfold dist_increase.
+  destruct (Z.leb_spec amt 0) as [Hle|Hpos]; [split; [reflexivity|repeat split; assumption]|].
+  destruct r as [r|].
+  - destruct (split_by_bips_spec amt bips ltac:(lia) Hb) as (rc & rest & -> & Hrc & Hsum & Hrc0 & Hrest0).
+    cbn [fst snd]. split; [reflexivity|]. unfold dist_ok; cbn [d_total d_module d_recips].
+    rewrite recips_sum_add.
+    destruct (Z.eqb_spec rest 0); repeat split; try lia; apply recip_add_nonneg; assumption.
+  - cbn [fst snd]. split; [reflexivity|]. unfold dist_ok; cbn [d_total d_module d_recips]. repeat split; try lia; assumption.
+Qed.
+
+Lemma dist_run_ok ops : forall d,
+  dist_ok d -> Forall (fun o => let '(_, bips, _) := o in 0 <= bips <= 10000) ops -> dist_ok (dist_run d ops).
+Proof.
+  unfold dist_run. induction ops as [|[[amt bips] r] ops IH]; intros d Hd Hf; cbn [fold_left]; [assumption|].
+  inversion Hf as [|? ? Hb Hf']; subst. apply IH; [|assumption].
+  apply (dist_increase_ok d amt bips r Hd Hb).
+Qed.
+
+Lemma dist_empty_ok : dist_ok dist_empty.
+Proof. unfold dist_ok, dist_empty; cbn. repeat split; try lia. constructor. Qed.
